@@ -225,13 +225,11 @@ printf("debug> #if: %d) %s   n=%d paren_count=%d precedence=%d state=%d\n", toke
     {
       tokens_push(asm_context, token, token_type);
 
-#if 0
       if (paren_count != 0)
       {
         print_error(asm_context, "Unbalanced parentheses.");
         return -1;
       }
-#endif
 
       if (state != 1)
       {
